@@ -410,6 +410,18 @@ class Interp:
         if fname.startswith('Arguments::') or fname.startswith('core::fmt::') or fname.startswith('std::fmt::'): return Opaque('fmt')
         g = self.generic_option_call(fname, a)
         if g is not None: return g[0]
+        m_ = re.match(r'^(?:std|core)::mem::(replace|swap|take)::<.*>$', fname)
+        if m_ and a and isinstance(a[0], Ref):
+            old_v = copyval(self.read_ref(a[0]))
+            if m_.group(1) == 'replace':
+                self.write_ref(a[0], a[1]); return old_v
+            if m_.group(1) == 'swap' and isinstance(a[1], Ref):
+                other_v = copyval(self.read_ref(a[1]))
+                self.write_ref(a[0], other_v); self.write_ref(a[1], old_v); return Opaque('unit')
+            if m_.group(1) == 'take' and z3.is_bv(old_v):
+                self.write_ref(a[0], z3.BitVecVal(0, old_v.size())); return old_v
+        g = self.generic_range_call(fr, fname, a)
+        if g is not None: return g[0]
         g = self.generic_map_call(fr, fname, a)
         if g is not None: return g[0]
         g = self.generic_int_call(fname, a)
@@ -472,7 +484,10 @@ class Interp:
     def run_closure_cells(self, clo, cells, argorder):
         """Run a closure whose &mut arguments live in a scratch world `cells` (so that forked paths keep their own copies).
         argorder: [('ref', cellname) | ('val', value)]. -> (merged return value, merged cells, panic condition)"""
-        sub = Interp(self.fns, self.K)
+        sub = self.__class__(self.fns, self.K)
+        for k_ in ('shared', 'cms_ret', 'merge_diamonds'):
+            if hasattr(self, k_):
+                setattr(sub, k_, getattr(self, k_))
         holder = {'locals': dict(cells)}
         sub.world = holder
         argv = [Ref((('local', holder, x[1]), [])) if x[0] == 'ref' else x[1] for x in argorder]
@@ -490,6 +505,49 @@ class Interp:
                 ret = ite(pc, v, ret) if ret is not None else None
                 after = {k: ite(pc, snap[k], after[k]) for k in after}
         return ret, after, z3.simplify(pan)
+
+    def generic_range_call(self, fr, fname, a):
+        """Range<usize>::{find, position, any, all} with a closure: unrolled over the (bounded) range"""
+        m = re.match(r'^<std::ops::Range<usize> as Iterator>::(find|position|any|all)::<\{closure@', fname)
+        if not m:
+            return None
+        clo = self.closure_by_span(fname)
+        if clo is None:
+            return None
+        op = m.group(1)
+        rng = self.read_ref(a[0]) if isinstance(a[0], Ref) else a[0]
+        st, en = rng.fields[0], rng.fields[1]
+        width = z3.simplify(en - st)
+        n = width.as_long() if z3.is_bv_value(width) else int(getattr(self, 'max_range_iter', 16))
+        if n > 64:
+            return None
+        env = a[1]
+        env_by_ref = not clo.sig.split('_1: ')[1].lstrip().startswith('{closure')
+        found, hit_idx, hit_j = z3.BoolVal(False), bv(0), bv(0)
+        for j in range(n):
+            idx = st + j
+            active = z3.And(z3.ULT(bv(j), en - st), z3.ULE(st, en), z3.Not(found))
+            args = [('ref', 'env') if env_by_ref else ('val', env), ('ref', 'it') if op == 'find' else ('val', idx)]
+            ret, _, pan = self.run_closure_cells(clo, {'env': env, 'it': idx}, args)
+            bad = z3.simplify(z3.And(self.cur_pc, active, pan))
+            if not z3.is_false(bad):
+                self.results.append((bad, 'panic', 'in %s closure' % op, None))
+            self.cur_pc = z3.simplify(z3.And(self.cur_pc, z3.Not(z3.And(active, pan))))
+            hit = z3.And(active, z3.Not(ret) if op == 'all' else ret)
+            hit_idx = z3.If(hit, idx, hit_idx)
+            hit_j = z3.If(hit, bv(j), hit_j)
+            found = z3.simplify(z3.Or(found, hit))
+        if not z3.is_bv_value(width):
+            # ranges longer than the unrolling bound are outside the model
+            bad = z3.simplify(z3.And(self.cur_pc, z3.UGT(en - st, bv(n)), z3.ULE(st, en)))
+            if not z3.is_false(bad):
+                self.results.append((bad, 'panic', 'MODEL-LIMIT: range longer than %d' % n, None))
+        if isinstance(a[0], Ref):
+            self.write_ref(a[0], Struct(rng.name, [z3.If(found, hit_idx + 1, z3.If(z3.ULE(st, en), en, st)), en]))
+        if op == 'find': return (OptionVal(found, hit_idx),)
+        if op == 'position': return (OptionVal(found, hit_j),)
+        if op == 'any': return (found,)
+        return (z3.Not(found),)
 
     def generic_map_call(self, fr, fname, a):
         K = self.K
